@@ -113,6 +113,20 @@ class Ref:
             return      # harness-level refusal (e.g. in a shrunk sequence): nothing reached the library
         if o in ("init", "fin"):
             self.st, self.cur = {}, {}
+            self.sessions = set()
+            self.last_epoch = None
+            if o == "init":
+                self.cycle = getattr(self, "cycle", 0) + 1
+        elif o == "epoch":
+            e = int(res.split()[0])
+            self.counts["cycle"] = self.counts.get("cycle", 0) + 1
+            if getattr(self, "last_epoch", None) is not None and getattr(self, "slept", 0) >= 20 and not self.sessions:
+                if e - self.last_epoch < 2:
+                    self.fail.append(("cycle", self.opno, "cycle %d: the epoch advanced by %d during a %d ms sleep (period 2 ms)" % (self.cycle, e - self.last_epoch, self.slept)))
+            self.last_epoch = e if not self.sessions else None
+            self.slept = 0
+        elif o == "sleep":
+            self.slept = getattr(self, "slept", 0) + int(w[1])
         elif o == "destroy":
             self.st, self.cur = {}, {}
         elif o == "create":
@@ -138,9 +152,17 @@ class Ref:
             else:
                 self.expect("storage", "OK %d %s" % (len(names), " ".join(hx(n) for n in names)), res)
         elif o == "enter":
-            self.sessions.add(w[1])
+            if w[1] in self.sessions:
+                pass
+            elif len(self.sessions) < 8:
+                self.sessions.add(w[1])
+                self.expect("session", "OK", res)
+            else:
+                self.expect("session", "WARN_MAX_SESSIONS", res)
         elif o == "leave":
-            self.sessions.discard(w[1])
+            if w[1] in self.sessions:
+                self.sessions.discard(w[1])
+                self.expect("session", "OK", res)
         elif o == "put":
             n, k, v, uniq = unhex(w[2]), unhex(w[3]), unhex(w[4]), w[6] == "1"
             got = res.split(" mod ")[0]
